@@ -28,6 +28,18 @@ def judge(rec, opts):
     got, extras = replay.render_record(rec)
     if not extras["data_unchanged"]:
         out.append((f"data-mutated:{constructs(rec)}:{rec['templates'][0][1][:60]}", {"got": got}))
+    if opts.get("compare") and not rec["data"][1]:
+        # the same lookup through a caching loader, first load and cache hit
+        from liquid2 import CachingDictLoader
+        layers = [replay.layer(x) for x in rec["data"]]
+        templates = {replay.conc(n): replay.conc(t) for n, t in rec["templates"]}
+        env = replay.make_env(rec["cfg"], loader=CachingDictLoader(templates), env_globals=layers[3])
+        for attempt in ("first-load", "cache-hit"):
+            g2 = replay.outcome(lambda: env.get_template(replay.conc(rec["main"]), globals=layers[2] or None).render(**layers[0]))
+            f2 = replay.compare(rec, g2)
+            if f2 is not None and f2["clause"] in ("output", "outcome", "error-class"):
+                bits = "".join("1" if l else "0" for l in rec["data"])
+                out.append((f"precedence-via-caching-loader:{attempt}:layers={bits}:{constructs(rec)}", f2))
     if opts.get("compare"):
         f = replay.compare(rec, got)
         if f is not None and f["clause"] in ("output", "outcome", "error-class"):
@@ -48,7 +60,13 @@ def check(tier: str) -> int:
                 gen.replay_file(chk, r.workdir / "out.ndjson", "harness.c10", "judge", {"compare": True})
             finally:
                 r.cleanup()
-    plans = [("MC_Confused", "confused", {}, 1, 2), ("MC_Loops", "loops-single", {"Variant": '"single"'}, 1, 1),
+    r = gen.run_focus(chk, "MC_Lambda", "lambda", max_top=4)
+    if r is not None:
+        try:
+            gen.replay_file(chk, r.workdir / "out.ndjson", "harness.c10", "judge", {"compare": True})
+        finally:
+            r.cleanup()
+    plans = [("MC_Confused", "confused", {}, 1, 1), ("MC_Loops", "loops-single", {"Variant": '"single"'}, 1, 1),
              ("MC_Scopes", "scopes", {}, 2, 2), ("MC_Flow", "flow", {}, 1, 1)]
     for module, name, consts, q, t in plans:
         r = gen.run_focus(chk, module, name, max_top=t if tier == "thorough" else q, extra_constants=consts,
